@@ -13,7 +13,8 @@ from .common import Corr
 ID = "C11"
 LEAN_MODULES = ["TempestVerif.Props.C11", "TempestVerif.Props.C11Pipeline", "TempestVerif.Props.C11Modes",
                 "TempestVerif.Props.C11SM", "TempestVerif.Props.C11Redraw", "TempestVerif.Props.C11Stat",
-                "TempestVerif.Props.C11Law", "TempestVerif.Props.C11Final", "TempestVerif.Props.C11RedrawStat"]
+                "TempestVerif.Props.C11Law", "TempestVerif.Props.C11Final", "TempestVerif.Props.C11RedrawStat",
+                "TempestVerif.Props.C11Source"]
 RULE = ("(1) warmup-evidence: real Sampler iterations in the prior-sampling phase (ess_ratio chosen so that beta stays 0 for 1..8 "
         "iterations; n_particles in {1,2,3,4,5,8,16,32,64}; d in {1,2,3}; no blobs / blobs_dtype declared / blobs returned without a "
         "declaration; vectorised and per-point likelihood), np.random.rand replaced by a tape of BLOCKS of dyadic points so that the "
@@ -566,6 +567,14 @@ def _correspond_real_rng(tier, drv):
             c.disagree(input=cfg, impl=prob, model=ans[:200], **cfg)
         c.sample({"config": cfg, "n_fin/n_drawn": [(t["nfin"], t["ndrawn"]) for t in its], "model_Z": ans[:120]})
     return c
+
+
+def translators():
+    """G19: Gen/WarmupSrc.lean is recompiled from the beta == 0 branch of /repo's steps/mutate.py on every run;
+       Props/C11Source.lean proves that Model.WarmupR / Model.Warmup.batchZR / Model.PipelineR.warmupL unfold to the
+       generated terms"""
+    from translate import g19_warmup
+    return [g19_warmup.generate()]
 
 
 def correspond(tier):
